@@ -28,6 +28,6 @@ CONSTANTS
   EVENTS = {"Delegate","Undelegate","Slash","EndBlock","Deposit","MsgDelegate","MsgUndelegate"}
   FAILBUDGET = 99
   WANTED <- c_WANTED
-VIEW View
+VIEW ViewG
 INVARIANTS EmitGoals
 CHECK_DEADLOCK FALSE
